@@ -68,27 +68,33 @@ SameLast(pre, post)      == post.last = pre.last
 \* Operations
 
 \* JobList::insert  (quantifier: fresh pid or pid of a finished job)
+\* "If there already is a job that has the same process ID as that of the new
+\* job, the existing job is silently removed."  Whether the new job takes over
+\* the removed job's index is not documented, so it is left open; when the
+\* removed job was the current or previous job only the invariants constrain
+\* the new selection.
 Insert(pre, op, res, post) ==
   LET p == op.p
       reuse == p \in PidOf(pre)
+      old == IF reuse THEN pre.by[p] ELSE None
+      base == Idx(pre) \ {old}
       k == res
       newS == op.s = "S"
-  IN /\ IF reuse THEN k = pre.by[p] ELSE k \notin Idx(pre)      \* "unique index"; existing job replaced
-     /\ k >= 0
-     /\ Idx(post) = Idx(pre) \cup {k}
+  IN /\ k >= 0 /\ k \notin base                                  \* "a unique index"
+     /\ Idx(post) = base \cup {k}
      /\ J(post, k) = [i |-> k, pid |-> p, st |-> op.s, ch |-> TRUE, ex |-> "N", own |-> TRUE]
-     /\ Untouched(pre, post, {k})
+     /\ Untouched(pre, post, {old, k})
      /\ SameLast(pre, post)
      \* selection, as the doc comment of insert states it
-     /\ IF pre.cur = None THEN post.cur = k
+     /\ IF pre.cur \notin base THEN (base = {} => post.cur = k)
         ELSE IF newS /\ ~Susp(J(pre, pre.cur))
         THEN /\ post.cur = k                                      \* new job becomes current
-             /\ (k # pre.cur /\ Cardinality(Idx(post)) >= 2) => post.prev = pre.cur
+             /\ post.prev = pre.cur                               \* (set_current_job: old current becomes previous)
         ELSE /\ post.cur = pre.cur
-             /\ IF pre.prev = None THEN TRUE                       \* a previous job must now exist (invariant)
-                ELSE IF newS /\ Susp(J(pre, pre.cur)) /\ ~Susp(J(pre, pre.prev)) /\ k # pre.cur
+             /\ IF pre.prev \notin base THEN TRUE                 \* a previous job must now exist (invariant)
+                ELSE IF newS /\ Susp(J(pre, pre.cur)) /\ ~Susp(J(pre, pre.prev))
                 THEN post.prev = k                                 \* new job becomes previous
-                ELSE k # pre.prev => post.prev = pre.prev
+                ELSE post.prev = pre.prev
 
 \* JobList::remove
 RemoveOne(pre, i, post) ==
